@@ -54,9 +54,73 @@ func load(dir string) *pkgInfo {
 	return &pkgInfo{fset: fset, files: files, info: info, pkg: pkg}
 }
 
-func fail(f string, a ...interface{}) {
+// failure is what `fail` raises: inside a `section` it makes that section fall back to the baseline copy.
+type failure struct{ msg string }
+
+func fail(f string, a ...interface{}) { panic(failure{fmt.Sprintf(f, a...)}) }
+
+func fatal(f string, a ...interface{}) {
 	fmt.Fprintf(os.Stderr, "extract: "+f+"\n", a...)
 	os.Exit(1)
+}
+
+// baselineDir holds the Gen files written from the tree the models were validated on (`./check --rebaseline`).
+var baselineDir string
+
+func baselineSection(file, label string) string {
+	if baselineDir == "" {
+		return ""
+	}
+	data, err := os.ReadFile(filepath.Join(baselineDir, file))
+	if err != nil {
+		return ""
+	}
+	txt := string(data)
+	bm, em := "-- §begin "+label+"\n", "-- §end "+label+"\n"
+	i := strings.Index(txt, bm)
+	if i < 0 {
+		return ""
+	}
+	j := strings.Index(txt[i:], em)
+	if j < 0 {
+		return ""
+	}
+	return txt[i+len(bm) : i+j]
+}
+
+// section runs fn, which appends definitions to sb. When fn cannot read what it expects in the source (the shape of the
+// code changed: a harmless rewrite does that as well as a harmful one), the definitions of this section are taken from the
+// baseline copy instead and the section is reported as STALE on stdout: for these facts the tie between source and model
+// then rests on the implementation-vs-model streams of the run alone. Without a baseline the failure is fatal.
+func section(sb *strings.Builder, file, label string, fn func()) {
+	start := sb.Len()
+	fmt.Fprintf(sb, "-- §begin %s\n", label)
+	func() {
+		defer func() {
+			r := recover()
+			if r == nil {
+				return
+			}
+			f, ok := r.(failure)
+			if !ok {
+				panic(r)
+			}
+			msg := strings.Join(strings.Fields(f.msg), " ")
+			old := baselineSection(file, label)
+			if old == "" {
+				fatal("%s (no baseline for section %q of %s)", msg, label, file)
+			}
+			head := sb.String()[:start]
+			sb.Reset()
+			sb.WriteString(head)
+			fmt.Fprintf(sb, "-- §begin %s\n", label)
+			sb.WriteString(old)
+			fmt.Fprintf(sb, "-- STALE (taken from the baseline): %s\n", msg)
+			fmt.Printf("STALE Gen/%s section %q: %s\n", file, label, msg)
+		}()
+		fn()
+	}()
+	fmt.Fprintf(sb, "-- §end %s\n", label)
 }
 
 func (p *pkgInfo) constInt(name string) string {
@@ -623,10 +687,19 @@ func main() {
 	repo := flag.String("repo", "/repo", "repository root")
 	out := flag.String("out", "", "output directory (Morlock/Gen)")
 	hashes := flag.String("hashes", "", "optional file for sha256 prefixes of modelled function bodies (informative)")
+	flag.StringVar(&baselineDir, "baseline", "", "directory with the Gen files of the validated tree (fallback for sections that cannot be read)")
 	flag.Parse()
 	if *out == "" {
-		fail("missing -out")
+		fatal("missing -out")
 	}
+	defer func() {
+		if r := recover(); r != nil {
+			if f, ok := r.(failure); ok {
+				fatal("%s", f.msg)
+			}
+			panic(r)
+		}
+	}()
 	var sb strings.Builder
 	w := func(f string, a ...interface{}) { fmt.Fprintf(&sb, f+"\n", a...) }
 	flush := func(name string) {
@@ -653,65 +726,85 @@ func main() {
 	w("")
 
 	b := load(filepath.Join(*repo, "pkg/board"))
-	w("-- pkg/board/bitboard.go: hand-typed rotation tables")
-	for _, t := range []string{"rot90", "rot45L", "rot45R", "mask45L", "mask45R", "off45L", "off45R"} {
-		xs := b.table(t)
-		if len(xs) != 64 {
-			fail("table %v has %d entries", t, len(xs))
+	e := load(filepath.Join(*repo, "pkg/eval"))
+	s := load(filepath.Join(*repo, "pkg/search"))
+	sc := load(filepath.Join(*repo, "pkg/search/searchctl"))
+	fp := load(filepath.Join(*repo, "pkg/board/fen"))
+	en := load(filepath.Join(*repo, "pkg/engine"))
+	be := load(filepath.Join(*repo, "cmd/bernstein/bernstein"))
+	sa := load(filepath.Join(*repo, "cmd/sargon/sargon"))
+	section(&sb, "Tables.lean", "rotation tables", func() {
+		w("-- pkg/board/bitboard.go: hand-typed rotation tables")
+		for _, t := range []string{"rot90", "rot45L", "rot45R", "mask45L", "mask45R", "off45L", "off45R"} {
+			xs := b.table(t)
+			if len(xs) != 64 {
+				fail("table %v has %d entries", t, len(xs))
+			}
+			w("def %s : Array Nat := %s", t, leanArr(xs))
 		}
-		w("def %s : Array Nat := %s", t, leanArr(xs))
-	}
-	w("def numStates : Nat := %s", b.constInt("numStates"))
+		w("def numStates : Nat := %s", b.constInt("numStates"))
+	})
 	flush("Tables.lean")
 
 	w("/-! GENERATED by /verif/harness/cmd/extract from %s — do not edit. Regenerated on every check. -/", *repo)
 	w("namespace Morlock.Gen")
 	w("")
-	w("-- pkg/board/position.go")
-	w("def whiteSquareMask : Nat := %s", b.exprInt(b.varDecl("whiteSquareMask")))
-	for _, m := range []string{"whiteKingSideCastlingMask", "whiteQueenSideCastlingMask", "blackKingSideCastlingMask", "blackQueenSideCastlingMask"} {
-		w("def %s : List Nat := %s", m, leanList(b.bitMaskArgs(m)))
-	}
+	section(&sb, "Facts.lean", "position masks", func() {
+		w("-- pkg/board/position.go")
+		w("def whiteSquareMask : Nat := %s", b.exprInt(b.varDecl("whiteSquareMask")))
+		for _, m := range []string{"whiteKingSideCastlingMask", "whiteQueenSideCastlingMask", "blackKingSideCastlingMask", "blackQueenSideCastlingMask"} {
+			w("def %s : List Nat := %s", m, leanList(b.bitMaskArgs(m)))
+		}
+	})
 	w("")
-	w("-- pkg/board/board.go")
-	for _, c := range []string{"repetition3Limit", "repetition5Limit", "noprogressPlyLimit"} {
-		w("def %s : Nat := %s", c, b.constInt(c))
-	}
+	section(&sb, "Facts.lean", "draw limits", func() {
+		w("-- pkg/board/board.go")
+		for _, c := range []string{"repetition3Limit", "repetition5Limit", "noprogressPlyLimit"} {
+			w("def %s : Nat := %s", c, b.constInt(c))
+		}
+	})
 	w("")
-	w("-- enums (declaration order, value)")
-	w("def enumSquare : List (String × Nat) := %s", leanPairs(b.enum("Square", map[string]bool{"ZeroSquare": true, "NumSquares": true}), false))
-	w("def enumPiece : List (String × Nat) := %s", leanPairs(b.enum("Piece", map[string]bool{"ZeroPiece": true, "NumPieces": true}), false))
-	w("def enumColor : List (String × Nat) := %s", leanPairs(b.enum("Color", map[string]bool{"ZeroColor": true, "NumColors": true}), false))
-	w("def enumMoveType : List (String × Nat) := %s", leanPairs(b.enum("MoveType", nil), false))
-	w("def enumCastling : List (String × Nat) := %s", leanPairs(b.enum("Castling", nil), false))
-	w("def enumOutcome : List (String × Nat) := %s", leanPairs(b.enum("Outcome", nil), false))
-	w("def enumRank : List (String × Nat) := %s", leanPairs(b.enum("Rank", map[string]bool{"ZeroRank": true, "NumRanks": true}), false))
-	w("def enumFile : List (String × Nat) := %s", leanPairs(b.enum("File", map[string]bool{"ZeroFile": true, "NumFiles": true}), false))
-	w("def zeroPiece : Nat := %s", b.constInt("ZeroPiece"))
-	w("def numPieces : Nat := %s", b.constInt("NumPieces"))
-	w("def numSquares : Nat := %s", b.constInt("NumSquares"))
-	w("def numCastling : Nat := %s", b.constInt("NumCastling"))
+	section(&sb, "Facts.lean", "enums", func() {
+		w("-- enums (declaration order, value)")
+		w("def enumSquare : List (String × Nat) := %s", leanPairs(b.enum("Square", map[string]bool{"ZeroSquare": true, "NumSquares": true}), false))
+		w("def enumPiece : List (String × Nat) := %s", leanPairs(b.enum("Piece", map[string]bool{"ZeroPiece": true, "NumPieces": true}), false))
+		w("def enumColor : List (String × Nat) := %s", leanPairs(b.enum("Color", map[string]bool{"ZeroColor": true, "NumColors": true}), false))
+		w("def enumMoveType : List (String × Nat) := %s", leanPairs(b.enum("MoveType", nil), false))
+		w("def enumCastling : List (String × Nat) := %s", leanPairs(b.enum("Castling", nil), false))
+		w("def enumOutcome : List (String × Nat) := %s", leanPairs(b.enum("Outcome", nil), false))
+		w("def enumRank : List (String × Nat) := %s", leanPairs(b.enum("Rank", map[string]bool{"ZeroRank": true, "NumRanks": true}), false))
+		w("def enumFile : List (String × Nat) := %s", leanPairs(b.enum("File", map[string]bool{"ZeroFile": true, "NumFiles": true}), false))
+		w("def zeroPiece : Nat := %s", b.constInt("ZeroPiece"))
+		w("def numPieces : Nat := %s", b.constInt("NumPieces"))
+		w("def numSquares : Nat := %s", b.constInt("NumSquares"))
+		w("def numCastling : Nat := %s", b.constInt("NumCastling"))
+	})
 	w("")
-	w("-- ordered piece lists (order matters for generator order)")
-	for _, l := range []string{"AllPieces", "KingQueen", "KingQueenRookKnightBishop", "QueenRookBishop", "QueenRookKnightBishop", "QueenRookKnightBishopPawn"} {
-		w("def list%s : List Nat := %s", l, leanList(b.identList(l)))
-	}
-	w("")
-
-	e := load(filepath.Join(*repo, "pkg/eval"))
-	w("-- pkg/eval")
-	w("def enumScoreType : List (String × Nat) := %s", leanPairs(e.enum("ScoreType", nil), false))
-	w("def nominalValue : List (String × Int) := %s", leanPairs(e.switchTable("NominalValue", ""), false))
-	w("")
-
-	s := load(filepath.Join(*repo, "pkg/search"))
-	w("-- pkg/search")
-	w("def enumBound : List (String × Nat) := %s", leanPairs(s.enum("Bound", nil), false))
+	section(&sb, "Facts.lean", "piece lists", func() {
+		w("-- ordered piece lists (order matters for generator order)")
+		for _, l := range []string{"AllPieces", "KingQueen", "KingQueenRookKnightBishop", "QueenRookBishop", "QueenRookKnightBishop", "QueenRookKnightBishopPawn"} {
+			w("def list%s : List Nat := %s", l, leanList(b.identList(l)))
+		}
+	})
 	w("")
 
-	sc := load(filepath.Join(*repo, "pkg/search/searchctl"))
-	w("-- pkg/search/searchctl/timectrl.go: `moves := time.Duration(<n>)` in TimeControl.Limits (moves assumed to the end of the game)")
-	w("def defaultHorizon : Int := %s", sc.assignedConst("Limits", "TimeControl", "moves"))
+	section(&sb, "Facts.lean", "eval", func() {
+		w("-- pkg/eval")
+		w("def enumScoreType : List (String × Nat) := %s", leanPairs(e.enum("ScoreType", nil), false))
+		w("def nominalValue : List (String × Int) := %s", leanPairs(e.switchTable("NominalValue", ""), false))
+	})
+	w("")
+
+	section(&sb, "Facts.lean", "search", func() {
+		w("-- pkg/search")
+		w("def enumBound : List (String × Nat) := %s", leanPairs(s.enum("Bound", nil), false))
+	})
+	w("")
+
+	section(&sb, "Facts.lean", "time control", func() {
+		w("-- pkg/search/searchctl/timectrl.go: `moves := time.Duration(<n>)` in TimeControl.Limits (moves assumed to the end of the game)")
+		w("def defaultHorizon : Int := %s", sc.assignedConst("Limits", "TimeControl", "moves"))
+	})
 	w("")
 
 	type fn struct {
@@ -737,46 +830,48 @@ func main() {
 	flush("Facts.lean")
 
 	// ---- Gen/Books.lean: the data of the opening books as they are in the source ----
-	fp := load(filepath.Join(*repo, "pkg/board/fen"))
-	en := load(filepath.Join(*repo, "pkg/engine"))
-	be := load(filepath.Join(*repo, "cmd/bernstein/bernstein"))
-	sa := load(filepath.Join(*repo, "cmd/sargon/sargon"))
 	w("/-! GENERATED by /verif/harness/cmd/extract from %s — do not edit. Regenerated on every check. -/", *repo)
 	w("namespace Morlock.Gen")
 	w("")
-	w("-- pkg/board/fen/fen.go")
-	w("def fenInitial : String := %s", leanStr(fp.constString("Initial")))
+	section(&sb, "Books.lean", "fen", func() {
+		w("-- pkg/board/fen/fen.go")
+		w("def fenInitial : String := %s", leanStr(fp.constString("Initial")))
+	})
 	w("")
-	w("-- cmd/bernstein/bernstein/book.go: the list passed to engine.NewBook (names of the vars, \"\" for an inline literal), resolved")
-	bnames, blines := be.newBookLines("NewBook")
-	w("def bernsteinLineNames : List String := %s", leanStrList(bnames))
-	{
-		var ls []string
-		for _, l := range blines {
-			ls = append(ls, leanStrList(l))
+	section(&sb, "Books.lean", "bernstein book", func() {
+		w("-- cmd/bernstein/bernstein/book.go: the list passed to engine.NewBook (names of the vars, \"\" for an inline literal), resolved")
+		bnames, blines := be.newBookLines("NewBook")
+		w("def bernsteinLineNames : List String := %s", leanStrList(bnames))
+		{
+			var ls []string
+			for _, l := range blines {
+				ls = append(ls, leanStrList(l))
+			}
+			w("def bernsteinLines : List (List String) := [%s]", strings.Join(ls, ", "))
 		}
-		w("def bernsteinLines : List (List String) := [%s]", strings.Join(ls, ", "))
-	}
+	})
 	w("")
-	w("-- cmd/sargon/sargon/book.go: the move literals (name, Type, From, To, Piece, Promotion, Capture; absent field = 0)")
-	snames, svals := sa.moveLiterals(b)
-	{
-		var ls []string
-		for i, n := range snames {
-			v := svals[i]
-			ls = append(ls, fmt.Sprintf("(%s, %s, %s, %s, %s, %s, %s)", leanStr(n), v[0], v[1], v[2], v[3], v[4], v[5]))
+	section(&sb, "Books.lean", "sargon book", func() {
+		w("-- cmd/sargon/sargon/book.go: the move literals (name, Type, From, To, Piece, Promotion, Capture; absent field = 0)")
+		snames, svals := sa.moveLiterals(b)
+		{
+			var ls []string
+			for i, n := range snames {
+				v := svals[i]
+				ls = append(ls, fmt.Sprintf("(%s, %s, %s, %s, %s, %s, %s)", leanStr(n), v[0], v[1], v[2], v[3], v[4], v[5]))
+			}
+			w("def sargonMoves : List (String × Nat × Nat × Nat × Nat × Nat × Nat) := [%s]", strings.Join(ls, ", "))
 		}
-		w("def sargonMoves : List (String × Nat × Nat × Nat × Nat × Nat × Nat) := [%s]", strings.Join(ls, ", "))
-	}
-	sinit, sdef, soth := sa.sargonShape()
-	w("-- sargon.NewBook: replies of the initial position; `response := ..`; `if isQueenSideOrKingPawn(m) { response = .. }`")
-	w("def sargonInitialReplies : List String := %s", leanStrList(sinit))
-	w("def sargonDefaultResponse : String := %s", leanStr(sdef))
-	w("def sargonFileResponse : String := %s", leanStr(soth))
-	spiece, sfiles := sa.sargonFiles(b)
-	w("-- isQueenSideOrKingPawn: `m.Piece != <piece>` returns false; the files of the `return true` case")
-	w("def sargonFilePiece : Nat := %s", spiece)
-	w("def sargonFiles : List Nat := %s", leanList(sfiles))
+		sinit, sdef, soth := sa.sargonShape()
+		w("-- sargon.NewBook: replies of the initial position; `response := ..`; `if isQueenSideOrKingPawn(m) { response = .. }`")
+		w("def sargonInitialReplies : List String := %s", leanStrList(sinit))
+		w("def sargonDefaultResponse : String := %s", leanStr(sdef))
+		w("def sargonFileResponse : String := %s", leanStr(soth))
+		spiece, sfiles := sa.sargonFiles(b)
+		w("-- isQueenSideOrKingPawn: `m.Piece != <piece>` returns false; the files of the `return true` case")
+		w("def sargonFilePiece : Nat := %s", spiece)
+		w("def sargonFiles : List Nat := %s", leanList(sfiles))
+	})
 	flush("Books.lean")
 
 	// ---- Gen/Engines.lean: the constants of the historical engines (engines.go) ----
